@@ -217,6 +217,26 @@ pub struct ChildEnd {
     pub stderr_tail: String,
 }
 
+/// run another executable (the stack-lane binary) and collect how it ended
+pub fn run_exe(exe: &str, args: &[String]) -> ChildEnd {
+    use std::os::unix::process::ExitStatusExt;
+    let out = Command::new(exe)
+        .args(args)
+        .env("RUST_BACKTRACE", "0")
+        .stdin(Stdio::null())
+        .stdout(Stdio::piped())
+        .stderr(Stdio::piped())
+        .output()
+        .unwrap_or_else(|e| harness_error(&format!("spawn {exe}: {e}")));
+    let tail = |b: &[u8]| {
+        let s = String::from_utf8_lossy(b);
+        let lines: Vec<&str> = s.lines().collect();
+        let k = lines.len().saturating_sub(6);
+        lines[k..].join("\n")
+    };
+    ChildEnd { code: out.status.code(), signal: out.status.signal(), stdout_tail: tail(&out.stdout), stderr_tail: tail(&out.stderr) }
+}
+
 pub fn run_child(args: &[String], envs: &[(&str, &str)], capture: bool) -> ChildEnd {
     use std::os::unix::process::ExitStatusExt;
     let mut c = Command::new(self_exe());
@@ -867,7 +887,7 @@ pub fn check(prop: Prop, tier: &str) -> i32 {
     // property-specific environment lanes
     let mut lane_violation: Option<String> = None;
     if prop == Prop::C15 {
-        let (v, info) = crate::lanes::small_stack_lane();
+        let (v, info) = crate::lanes::small_stack_lane(tier);
         extra.insert("small_stack_lane".into(), info);
         lane_violation = v;
     }
